@@ -45,7 +45,12 @@ Document(d) ==
                            serial |-> IF view[r].known THEN view[r].serial ELSE nextSerial + IndexIn(fresh, r) - 1]]
        /\ nextSerial' = nextSerial + Len(fresh)
 
-Next == \E d \in [RSet -> Entries] : Document(d) /\ ndocs < MaxDocs
+\* between documents relays are looked up by identity - directly, or because a circuit event names them
+\* in its path - in any of the forms Tor uses ($hex, $hex~nick, $hex=nick), known to the latest
+\* document or not: the view does not change
+Lookup == UNCHANGED vars
+
+Next == Lookup \/ \E d \in [RSet -> Entries] : Document(d) /\ ndocs < MaxDocs
 Spec == Init /\ [][Next]_vars
 
 ----------------------------------------------------------------------------
